@@ -556,7 +556,10 @@ class RFBClient(Protocol):  # type: ignore[misc]
 
     def _handleConnFailed(self, block: bytes) -> None:
         (waitfor,) = unpack("!I", block)
-        self.expect(self._handleConnMessage, waitfor)
+        if waitfor:
+            self.expect(self._handleConnMessage, waitfor)
+        else:  # empty reason: nothing more to wait for
+            self._handleConnMessage(b"")
 
     def _handleConnMessage(self, block: bytes) -> None:
         log.msg(f"Connection refused: {block!r}")
@@ -639,7 +642,10 @@ class RFBClient(Protocol):  # type: ignore[misc]
 
     def _handleAuthFailed(self, block: bytes) -> None:
         (waitfor,) = unpack("!I", block)
-        self.expect(self._handleAuthFailedMessage, waitfor)
+        if waitfor:
+            self.expect(self._handleAuthFailedMessage, waitfor)
+        else:  # empty reason: nothing more to wait for
+            self._handleAuthFailedMessage(b"")
 
     def _handleAuthFailedMessage(self, block: bytes) -> None:
         self.vncAuthFailed(block)
